@@ -18,6 +18,8 @@ def scenario(n, path, rstack, drops, again):
             import asyncio
 
             await w.ezsp.connect(use_thread=False)
+            if rstack == "dup":
+                w.ncp.dup_rstack = True   # every RSTACK arrives twice, both copies in one read
             if rstack == "early":
                 w.ncp.boot_delay = 0.4   # (were the host to reset an NCP that has just announced itself, the NCP would be deaf for a while)
                 w.ncp.out.append(__import__("harness.ashlib", fromlist=["x"]).spec_wire("K", code=0x0B))
@@ -194,6 +196,10 @@ def cases(ctx):
                 cs.append((n, path, rstack, (0, 0), "startup"))
                 cs.append((n, path, rstack, (0, 0), "lost"))
     for n in versions:
+        # the line duplicates the reset acknowledgement: both copies arrive in one read (first bring-up and a later reset)
+        cs.append((n, "/dev/ttyUSB0", "dup", (0, 0), n % 2 == 0))
+        cs.append((n, "socket://127.0.0.1:6638", "dup", (0, 0), False))
+    for n in versions:
         # a failed reset handshake (acknowledgement lost) followed by a plain retry on the same object; a later reset whose RST
         # crosses a callback of the old session carrying each possible frame number
         if n in (4, 6, 8, 13, 14, 15) or ctx.tier == "thorough":
@@ -250,7 +256,7 @@ def run(ctx):
         if i % 60 == 0:
             ctx.sample({"case": list(map(str, c)), "result": o["result"], "frames": o["frames"][:3], "ev": o.get("ev1"), "hv": o.get("hv1")})
     ctx.cov["rule"] = ("NCP protocol versions 4..14, 15, 16, 255 x {serial path; socket path with the spontaneous start-up RSTACK early / late / absent} with a later reset and renegotiation (EZSP.reset + version; stop_ezsp + startup_reset + write_config; the same after a reset whose acknowledgement was lost), "
-                       "a bring-up whose first reset acknowledgement is lost retried on the same object, a later reset with a lost acknowledgement retried without stopping EZSP, a later reset whose RST crosses a callback of the old session carrying each frame number 0..7; and link faults during bring-up (the NCP loses the first 0..2 (0..5 thorough) frames in each direction); every run is a full connect + startup_reset + write_config of the real stack")
+                       "the reset acknowledgement duplicated by the line (two RSTACKs in one read); a bring-up whose first reset acknowledgement is lost retried on the same object, a later reset with a lost acknowledgement retried without stopping EZSP, a later reset whose RST crosses a callback of the old session carrying each frame number 0..7; and link faults during bring-up (the NCP loses the first 0..2 (0..5 thorough) frames in each direction); every run is a full connect + startup_reset + write_config of the real stack")
     ctx.exhaustive = True
 
 
